@@ -75,6 +75,10 @@ class Ctx:
             cname, mname = qn.rsplit('.', 1)
             c = self.M.cls(cname)
             f = c.lookup(mname) if c is not None else None
+            if f is not None:
+                import copy
+                f = copy.copy(f)
+                f.dyn_cls = c            # the inherited method as it runs on an instance of the subclass that was asked for
         if f is None:
             raise Undecided('anchor function %s not found' % qn)
         return f
